@@ -94,6 +94,19 @@ fn main() {
                     println!("{:?} @{} -> {:?} check={}", t, i, h.highlight(t, i), h.highlight_check(t, i + 1));
                 }
             }
+            other if other.starts_with("repeat:") => {
+                // repeat:<n>:<form> — evaluate the form n times in one VM and report the size of the VM's debug rendering
+                // (proportional to heap capacity) before and after
+                let rest = &other["repeat:".len()..];
+                let (n, form) = rest.split_once(':').unwrap();
+                let n: usize = n.parse().unwrap();
+                let before = format!("{:?}", vm).len();
+                let mut last = vec![];
+                for _ in 0..n {
+                    last = eval_all(&mut vm, form);
+                }
+                println!("  {} x{} => {:?}; debug size {} -> {}", form.trim(), n, last, before, format!("{:?}", vm).len());
+            }
             other if other.starts_with("session:") => {
                 // forms separated by ";;" are evaluated one by one in the same VM, continuing after failures
                 for part in other["session:".len()..].split(";;") {
